@@ -36,9 +36,18 @@ type Prog struct {
 	retMemo     map[*Func][]*Term
 	predMemo    map[*Func]*Term
 	resEqMemo   map[*Func][]*Term
+	valueMemo   map[*Func]*Term
+	globalMemo    map[*types.Var]*Term
+	globalBusy    map[*types.Var]bool
+	globalInit    map[*types.Var]ast.Expr
+	globalPkgOf   map[*types.Var]*packages.Package
+	globalMutated map[*types.Var]bool
 	inlineMemo  map[*Func]bool
 	refs        map[*types.Func]int
 	refCaller   map[*types.Func]*Func
+	refsOther   map[*types.Func]int
+	spliceHosts []*Func
+	spliceBind  map[*Func]map[string]*Term
 	predDone    map[*Func]bool
 	anchors     map[string]types.Object
 	kt          *KeyTable
@@ -111,7 +120,7 @@ func loadProg(dir string, tests bool, goarch string) *Prog {
 	p := &Prog{Dir: dir, Fset: fset, ByPkg: map[string]*packages.Package{},
 		FuncByObj: map[*types.Func]*Func{}, FuncByLit: map[*ast.FuncLit]*Func{},
 		VarOwner: map[*types.Var]*Func{}, pathsMemo: map[*Func][]*Path{}, pathsBusy: map[*Func]bool{},
-		summaryMemo: map[*Func]*Summary{}, retMemo: map[*Func][]*Term{}, predMemo: map[*Func]*Term{}, resEqMemo: map[*Func][]*Term{}, inlineMemo: map[*Func]bool{}, predDone: map[*Func]bool{}, anchors: map[string]types.Object{}}
+		summaryMemo: map[*Func]*Summary{}, retMemo: map[*Func][]*Term{}, predMemo: map[*Func]*Term{}, resEqMemo: map[*Func][]*Term{}, valueMemo: map[*Func]*Term{}, inlineMemo: map[*Func]bool{}, predDone: map[*Func]bool{}, anchors: map[string]types.Object{}}
 	nerr := 0
 	for _, pk := range pkgs {
 		for _, e := range pk.Errors {
@@ -148,6 +157,7 @@ func loadProg(dir string, tests bool, goarch string) *Prog {
 		}
 	}
 	p.indexFuncs()
+	dynResolver = p.resolveDynCalls
 	return p
 }
 
@@ -467,6 +477,21 @@ func (p *Prog) FuncNamed(name string) *Func {
 }
 
 // isHandWritten: rule sites exclude generated and test code.
+// typeSig: the signature of a declared function or a function literal.
+func (f *Func) typeSig() (*types.Signature, bool) {
+	if f.Obj != nil {
+		sg, ok := f.Obj.Type().(*types.Signature)
+		return sg, ok
+	}
+	if f.Lit != nil {
+		if t := f.Pkg.TypesInfo.TypeOf(f.Lit); t != nil {
+			sg, ok := t.(*types.Signature)
+			return sg, ok
+		}
+	}
+	return nil, false
+}
+
 func (f *Func) isHandWritten() bool { return !strings.HasPrefix(f.Name, "gen:") }
 
 func (f *Func) pkgName() string { return f.Pkg.Types.Name() }
